@@ -31,7 +31,7 @@ for k, (e, o) in enumerate(zip(exp, fin["txs"])):
              ("req_headers", [[h["name"], h["value"]] for h in e["req_headers"]], [[opt(h[0]), opt(h[1])] for h in o["req_headers"]]),
              ("res_headers", [[h["name"], h["value"]] for h in e["res_headers"]], [[opt(h[0]), opt(h[1])] for h in o["res_headers"]]),
              ("raw", [opt(e["scheme"]) if e["scheme"] else None, opt(e["user"]) if e["user"] else None, opt(e["uhost"]) if e["uhost"] else None, opt(e["uport"]) if e["uport"] else None, opt(e["path"])],
-              [opt(o["parsed_uri_raw"][x]) for x in ("scheme", "username", "hostname", "port", "path")]), ("progress", [5, 5], [o["rp"], o["sp"]]),
+              [opt(o["parsed_uri_raw"][x]) for x in ("scheme", "username", "hostname", "port", "path")]), ("progress", [5, 5], [o["rp"], o["sp"]]), ("numbers", [e.get("method_number"), e.get("protocol_number"), e.get("res_protocol_number")], [o["method_number"], o["protocol_number"], o["res_protocol_number"]]),
              ("qbody", e["req_body"], o["qbody"]), ("sbody", [e["res_body"], e["res_coding"]], [o["sbody"], o["res_ce"]])]
     for name, a, b in pairs:
         if a != b:
